@@ -48,7 +48,10 @@ static bool flip_pattern(uint8_t * cw, uint32_t nbits) {
     SYM_U32(p2);
     SYM_U32(p3);
     SYM_U8(k);
-    ASSUME(k >= 1 && k <= 3);
+#ifndef WMAX
+#define WMAX 3
+#endif
+    ASSUME(k >= 1 && k <= WMAX);
     ASSUME(p1 < nbits && p2 < nbits && p3 < nbits);
     ASSUME(k < 2 || p2 != p1);
     ASSUME(k < 3 || (p3 != p1 && p3 != p2));
